@@ -97,16 +97,19 @@ func okValue(kind string) string {
 	return `null`
 }
 
-func wrongValue(kind string) string {
+// wrongValue: three wrongly typed JSON values per declared parameter type ("wrong", "wrong2", "wrong3"),
+// among them the near misses: a string that spells a number or a boolean, a number with a fraction, 0 for false
+func wrongValue(kind string, which string) string {
+	k := map[string]int{"wrong": 0, "wrong2": 1, "wrong3": 2}[which]
 	switch kind {
 	case "string":
-		return `12`
+		return []string{`12`, `true`, `{"a":1}`}[k]
 	case "int":
-		return `"seven"`
+		return []string{`"seven"`, `"7"`, `1.5`}[k]
 	case "bool":
-		return `3`
+		return []string{`3`, `"true"`, `0`}[k]
 	case "struct", "ptr":
-		return `"not an object"`
+		return []string{`"not an object"`, `[1]`, `7`}[k]
 	}
 	return `null`
 }
@@ -170,8 +173,8 @@ func runDispatchTable(args []string) {
 						}
 						v := okValue(kind)
 						if i+1 == dev {
-							if devk == "wrong" {
-								v = wrongValue(kind)
+							if strings.HasPrefix(devk, "wrong") {
+								v = wrongValue(kind, devk)
 							} else {
 								v = "null"
 							}
@@ -182,7 +185,9 @@ func runDispatchTable(args []string) {
 				}
 				shapes = append(shapes, shape{"array", vals(0, ""), k, 0, ""})
 				for pos := 1; pos <= k && pos <= len(sig); pos++ {
-					shapes = append(shapes, shape{"array", vals(pos, "wrong"), k, pos, "wrong"}, shape{"array", vals(pos, "null"), k, pos, "null"})
+					for _, dk := range []string{"wrong", "wrong2", "wrong3", "null"} {
+						shapes = append(shapes, shape{"array", vals(pos, dk), k, pos, dk})
+					}
 				}
 			}
 			for _, sh := range shapes {
